@@ -98,6 +98,12 @@ func (c *regexpSimplifyChecker) simplify(pass int, pat string) string {
 		return ""
 	}
 
+	if c.hasLeadingZeroRepeat(re.Expr) {
+		// `x{01}`: Go doesn't accept counts with leading zeros and matches
+		// such braces literally, unlike the parser we use.
+		return ""
+	}
+
 	c.score = 0
 	c.out.Reset()
 	c.literalBraces = c.literalBraces[:0]
@@ -405,6 +411,23 @@ func (c *regexpSimplifyChecker) hasQuantifiedFlagGroup(e syntax.Expr) bool {
 	}
 	for _, a := range e.Args {
 		if c.hasQuantifiedFlagGroup(a) {
+			return true
+		}
+	}
+	return false
+}
+
+// hasLeadingZeroRepeat reports whether e contains a repeat like `x{01}` or `x{1,02}`.
+func (c *regexpSimplifyChecker) hasLeadingZeroRepeat(e syntax.Expr) bool {
+	if e.Op == syntax.OpRepeat {
+		for _, n := range strings.Split(strings.Trim(e.Args[1].Value, "{}"), ",") {
+			if len(n) > 1 && n[0] == '0' {
+				return true
+			}
+		}
+	}
+	for _, a := range e.Args {
+		if c.hasLeadingZeroRepeat(a) {
 			return true
 		}
 	}
